@@ -271,6 +271,52 @@ def h_lifetime(scn):
     return ['lifetime', 'retried']
 
 
+def h_shared(kind):
+    """TWO IKE_SAs of the same connection (same configuration objects), as after simultaneous initiations: while the request of the first is
+    outstanding the second starts a negotiation of its own (arbitrary kind); the retransmission of the first is still byte-identical"""
+    from symx import core
+    eng = core.engine()
+    ik = MODS['ikesa'].IkeSa
+    S = ik.State
+    m = MODS['message']
+    p1 = world.Pair()
+    sent = bytes(p1.to_state('A', {'init': 'INIT_REQ_SENT', 'auth': 'AUTH_REQ_SENT', 'child': 'NEW_CHILD_REQ_SENT', 'rekey_child': 'REK_CHILD_REQ_SENT',
+                                   'rekey_ike': 'REK_IKE_SA_REQ_SENT'}[kind]))
+    x, X = p1.a, p1.A
+    now = world.ENV.now
+    # the second IKE_SA of the same connection: a second initiator object built on the SAME IkeConfiguration, driven against its own responder
+    y = MODS['ikesa'].IkeSa(is_initiator=True, peer_spi=b'\0' * 8, configuration=x.configuration, my_addr=world.IP1, peer_addr=world.IP2)
+    yb = MODS['ikesa'].IkeSa(is_initiator=False, peer_spi=y.my_spi, configuration=p1.b.configuration, my_addr=world.IP2, peer_addr=world.IP1)
+    Y, YB = world.Endpoint('Y', y), world.Endpoint('YB', yb)
+    what = eng.sym_int('second_negotiation', 0, 3)
+    w = eng.concretize(what, 0, 3) if not isinstance(what, int) else what
+    tsi, tsr = p1.acquire_tss()
+    d = Y.call(y.process_acquire, tsi, tsr, 1)               # IKE_SA_INIT request of the second IKE_SA
+    to, other = (yb, YB), (y, Y)
+    if w >= 1:
+        for _ in range(8):
+            if d is None:
+                break
+            d = to[1].call(to[0].process_message, d)
+            to, other = other, to
+        if y.state != S.ESTABLISHED:
+            return ['n/a', y.state.name]
+        if w == 2:
+            Y.call(y.process_expire, y.child_sas[0].inbound_spi, False)      # CHILD_SA rekey request
+        elif w == 3:
+            world.ENV.now = y.rekey_ike_sa_at + 10
+            Y.call(y.check_rekey_ike_sa_timer)                               # IKE_SA rekey request
+    world.ENV.now = x.retransmit_at + 1
+    r = X.call(x.check_retransmission_timer)
+    if r is None:
+        return {'class': ['shared'], 'violation': 'nothing retransmitted after the deadline'}
+    if bytes(r) != sent:
+        return {'class': ['shared'], 'violation': f'{kind} request: after another IKE_SA of the same connection started a negotiation of its own ('
+                                                  f'{["IKE_SA_INIT", "initial exchanges", "CHILD_SA rekey", "IKE_SA rekey"][w]}), the retransmission is not byte-identical to the '
+                                                  f'request that was sent'}
+    return ['shared', kind, w]
+
+
 BUSY_STEPS_MS = (250, 400, 900, 1000, 1700)
 
 
@@ -317,6 +363,9 @@ def h_busy(kind, n_children=1):
 def build_instances(tier):
     inst = []
     nat = common.native_of
+    for kind in ('init', 'auth', 'child', 'rekey_child', 'rekey_ike'):
+        inst.append(Instance(f'retransmission of a {kind} request beside a second IKE_SA of the same connection', h_shared, (kind,), native=nat(h_shared),
+                             engine_kw={'max_ticks': 10 ** 7}, must_reach=[('identical', lambda o: o[0] == 'shared')]))
     for kind in ('udp_junk', 'xfrm_junk', 'control', 'idle'):
         inst.append(Instance(f'peer crash under steady {kind} events', h_busy, (kind,), native=nat(h_busy), engine_kw={'max_ticks': 10 ** 7},
                              must_reach=[('torn down', lambda o: o[0] == 'busy')]))
